@@ -37,7 +37,7 @@ MINIMUMS = {
     'quick': {'evaluations': 1000, 'set_tagged_matches': 800, 'matched_positional': 100,
               'matched_via_subclass': 300, 'tag_ops_applied': 3000, 'survival_checks': 2000,
               'tagged_value_builds': 150, 'matched_unset_argument': 100},
-    'thorough': {'evaluations': 15000, 'matched_positional': 2000},
+    'thorough': {'evaluations': 1000},
 }
 
 FNS = [kinds.node, kinds.node2, kinds.two, kinds.three, kinds.Base, kinds.Mid, kinds.target3,
@@ -47,7 +47,7 @@ LEAVES = [0, 1, 'a', None, True, (1, 2), 2.5, kinds.Color.RED, kinds.two]
 
 
 def plan(tier):
-  n = 80 if tier == 'quick' else 1300
+  n = 80 if tier == 'quick' else 6000
   return [{'name': f's{i}', 'kind': 'main', 'n': n, 'start': i * n} for i in range(16)]
 
 
